@@ -11,7 +11,7 @@ RULE = ("one case = region (Cartesian lattice with holes/mask flags/permuted cel
         "partial quadkey set) x magnitude grid (decimal start/step, 1..8 bins; bound to the region or passed explicitly) x catalog (0..40 "
         "events placed by construction: cell lower-left corners, cell edges, interiors; magnitudes on bin edges, interiors, far above the last "
         "edge; duplicates; any order; 1 case in 16 repeats its event list 30x/100x; 1 in 3 passes a caller-supplied tol with events 0.3 tol "
-        "below edges). Family 'in_domain': all events inside; family 'mixed': 1..3 events outside the region or below the first "
+        "below edges). Family 'f32_origins': lattice origins that went through single precision once, spacing given, events at 1/4, 1/2, 3/4 of their cells. Family 'in_domain': all events inside; family 'mixed': 1..3 events outside the region or below the first "
         "magnitude edge inserted at drawn positions. Non-trivial = >= 2 events in one cell-bin and >= 1 event on an edge (in_domain) / the bad "
         "event is not last (mixed); distinct = canonical JSON.")
 ASSUMPTIONS = ["events of the in-domain family are constructed at offsets {0,1/4,1/2,3/4} of a cell (never within slack below an upper edge), so the reference gridding is unambiguous",
